@@ -62,6 +62,8 @@ VARIANTS = {
     "extra": ([], "-O2 -DEAV_EXTRA", "cc", ""),
     "debug": ([], "-O0 -g", "cc", ""),
     "uchar": ([], "-O2 -funsigned-char", "cc", ""),      # plain char unsigned, as on ARM / PowerPC
+    "ndebug": ([], "-O2 -DNDEBUG", "cc", ""),            # assert() compiled out, as in a release build
+    "mkdebug": (["debug"], None, "cc", ""),              # the Makefile's own `make debug` (CFLAGS += -g -D_DEBUG)
 }
 
 
@@ -84,7 +86,11 @@ def build(ctx, variant="default", optbits=0, backend="idn2", targets=("static",)
     base_cflags = "-O2 -Wall -Wextra -std=c99 -pedantic"
     if cflags:
         base_cflags = cflags + " -Wall -Wextra -std=c99 -pedantic"
-    args = ["make", "-C", dst, "-j8"] + list(targets) + ["CC=" + cc, "CFLAGS=" + base_cflags]
+    if cflags is None:      # the Makefile's own flags and target
+        args = ["make", "-C", dst, "-j8"] + margs + ["CC=" + cc]
+        base_cflags = "-O2 -g -D_DEBUG -std=c99"
+    else:
+        args = ["make", "-C", dst, "-j8"] + list(targets) + ["CC=" + cc, "CFLAGS=" + base_cflags]
     if ldflags:
         args.append("LDFLAGS=" + ldflags)
     if optbits & 1:
